@@ -53,6 +53,7 @@ class Backend(object):
         self.gone = False              # the device was unplugged: descriptor reads fail too
         self.partial_timeout = False   # the next bulkRead times out after part of the data arrived: USBErrorTimeout with the bytes in .received
         self.fired = []                # backend call indices at which an injected error was raised
+        self.layout = None
         self.ndevices = 1              # how many ADB devices hang on the bus (ports [2, 3], [2, 4], ...); they all report the same serial number
 
 
@@ -157,8 +158,8 @@ class Handle(object):
 
 
 class Device(object):
-    def __init__(self, port=3):
-        self.port = port
+    def __init__(self, port=3, bus=1, chain=None):
+        self.port, self.bus, self.chain = port, bus, chain
 
     def iterSettings(self):
         return iter([Setting()])
@@ -168,10 +169,10 @@ class Device(object):
         return Handle()
 
     def getBusNumber(self):
-        return 1
+        return self.bus
 
     def getPortNumberList(self):
-        return [2, self.port]
+        return list(self.chain) if self.chain is not None else [2, self.port]
 
     def getSerialNumber(self):
         if BACKEND.gone:
@@ -184,6 +185,8 @@ class USBContext(object):
         return self
 
     def getDeviceIterator(self, skip_on_error=False):
+        if BACKEND.layout:            # [(bus, [port chain]), ...]: e.g. the same port chain behind two host controllers
+            return iter([Device(bus=b_, chain=c_) for b_, c_ in BACKEND.layout])
         return iter([Device(3 + i) for i in range(BACKEND.ndevices)])
 
 
